@@ -1,6 +1,7 @@
 package checks
 
 import (
+	"bytes"
 	"fmt"
 
 	"github.com/gabriel-vasile/mimetype/internal/verifx/core"
@@ -89,6 +90,39 @@ func c07Run(c *core.Ctx) {
 			c.R.States++
 			for _, l := range []uint32{0, 1, 2, 3} {
 				try(b2, l, "A:len<=2")
+			}
+		}
+	}
+
+	// L: long inputs. One binary data byte at every power-of-two boundary (and its
+	// neighbours) of an otherwise clean text of 20000 bytes, under limits on both
+	// sides of it: a scan that gives up after a fixed number of bytes, or a limit
+	// that is applied to one of two passes only, shows here and nowhere else.
+	{
+		base := bytes.Repeat([]byte("The quick brown fox jumps over the lazy dog.\n"), 445)[:20000]
+		var positions []int
+		for p := 256; p <= 16384; p *= 2 {
+			positions = append(positions, p-1, p, p+1)
+		}
+		positions = append(positions, 3071, 3072, 3073, 9999, 19999)
+		unit := uint64(0)
+		for _, pos := range positions {
+			for _, bad := range []byte{0x00, 0x01, 0x1F} {
+				unit++
+				if !c.Mine(unit) || c.Expired() {
+					continue
+				}
+				in := append([]byte{}, base...)
+				in[pos] = bad
+				c.R.States++
+				for _, l := range []uint32{0, 3072, uint32(pos), uint32(pos + 1), uint32(pos + 2), 4096, 4097, 8192, 65536} {
+					try(in, l, "L:long-text-one-binary-byte")
+				}
+			}
+		}
+		if c.Mine(unit + 1) {
+			for _, l := range []uint32{0, 3072, 4096, 4097, 20000} {
+				try(base, l, "L:long-clean-text")
 			}
 		}
 	}
